@@ -283,6 +283,14 @@ fn generic<T: Tier, M: MatN<T, N>, const N: usize>(rep: &mut Report) {
             let prod = ca * cb;
             eq_m::<T, N>(ctx, &key("mul_matrix"), prod.arr(), model::mmul(ma, mb));
             eq_v::<T, N>(ctx, &key("mul_vector"), (ca * cv).arr(), model::mvec(ma, mv));
+            // "all by-value/by-reference operand forms": each of them is the product (C17 compares the spellings with one
+            // another; here each is held to the convention itself)
+            for (f, p) in ["&a*b", "a*&b", "&a*&b"].iter().zip(M::mul_forms(ca, cb)) {
+                eq_m::<T, N>(ctx, &key(&format!("mul_matrix/{f}")), p.arr(), model::mmul(ma, mb));
+            }
+            for (f, p) in ["&a*v", "a*&v", "&a*&v"].iter().zip(M::mulv_forms(ca, cv)) {
+                eq_v::<T, N>(ctx, &key(&format!("mul_vector/{f}")), p.arr(), model::mvec(ma, mv));
+            }
             // column c of A*B equals A*(column c of B)
             for c in 0..N {
                 let col = ca * M::V::mk(b[c]);
